@@ -128,6 +128,7 @@ def main():
     t0 = time.time()
 
     if a.replay:
+        a.replay = os.path.abspath(a.replay)
         env.enter_workdir()
         mod = importlib.import_module("vf.props." + pid.lower())
         with open(a.replay) as f:
@@ -213,4 +214,12 @@ def main():
 
 
 if __name__ == "__main__":
-    main()
+    try:
+        main()
+    except SystemExit:
+        raise
+    except BaseException:
+        import traceback
+        traceback.print_exc()
+        print("HARNESS-ERROR: runner crashed", file=sys.stderr)
+        sys.exit(2)
